@@ -171,7 +171,7 @@ func runCheck(def *CheckDef, flags map[string]string) int {
 	if only := flags["job"]; only != "" {
 		var keep []*engine.Job
 		for _, j := range run.jobs {
-			if strings.Contains(j.ID, only) {
+			if (strings.HasPrefix(only, "=") && j.ID == only[1:]) || (!strings.HasPrefix(only, "=") && strings.Contains(j.ID, only)) {
 				keep = append(keep, j)
 			}
 		}
@@ -204,22 +204,18 @@ func runCheck(def *CheckDef, flags map[string]string) int {
 		for l, n := range r.Labels {
 			labels[l] += n
 		}
+		paths += r.NPaths
+		done += r.NDone + r.NPanicked
+		skipped += r.NSkipped
+		aborted += r.NAborted
+		for _, m := range r.AbortMsgs {
+			if i := strings.Index(m, "\n"); i > 0 {
+				m = m[:i]
+			}
+			abortMsgs[m]++
+		}
 		for pi := range r.Paths {
 			pr := &r.Paths[pi]
-			paths++
-			switch pr.Status {
-			case engine.PathDone, engine.PathPanicked:
-				done++
-			case engine.PathSkipped:
-				skipped++
-			case engine.PathAborted:
-				aborted++
-				m := pr.Msg
-				if i := strings.Index(m, "\n"); i > 0 {
-					m = m[:i]
-				}
-				abortMsgs[m]++
-			}
 			if len(pr.Viol) > 0 && pr.Fixture != nil {
 				c := &candidate{Job: run.jobs[ji], Path: pr, Fixture: pr.Fixture}
 				for _, v := range pr.Viol {
